@@ -69,10 +69,10 @@ def keyobj(k):
     if k[0] == "S":
         return str(k[1])             # a string of digits: get_path accepts it as a list index
     t = k[1]
-    f = t % 3
-    if f == 0:
+    f = t % 4
+    if f < 2:
         return "k%d" % t
-    if f == 1:
+    if f == 2:
         return ("t", t)
     return b"k%d" % t
 
@@ -609,7 +609,7 @@ def small_graphs():
                     yield {"nodes": nodes, "root": ["N", 0], "visit": pr, "query": ["true"], "dc": pr is None}
 
 
-def gen_probes(rng, nodes, root, count):
+def gen_probes(rng, nodes, root, count, dotted=False):
     """paths for get_path: random walks through the graph description, then possibly one segment too far,
     an index out of range, a key that is absent, or a step into a set.  Never an int segment into a leaf
     (str/bytes leaves are indexable in Python; the model treats leaves as atoms)."""
@@ -631,7 +631,7 @@ def gen_probes(rng, nodes, root, count):
                 path.append(nd["c"][j][0])
                 cur = nd["c"][j][1]
             else:
-                path.append(["I", j] if rng.random() < 0.75 else ["S", j])
+                path.append(["I", j] if rng.random() < (0.1 if dotted else 0.75) else ["S", j])
                 if nd["k"] in ("set", "frozenset"):
                     break
                 cur = nd["c"][j]
@@ -651,12 +651,13 @@ def generate(rng, tier, n):
                 nodes, root = gen_graph(rng, rng.choice([4, 6, 8, 12, 20 if big else 12]), rng.choice([2, 3, 4, 6]))
                 if buildable(nodes):
                     break
+        dotted = rng.random() < 0.5
         yield {"nodes": nodes, "root": root, "visit": gen_prog(rng), "reraise": rng.choice([None, None, True, False, False]),
                "query": ["true"] if rng.random() < 0.35 else gen_pred(rng), "dc": rng.random() < 0.3,
-               "dotted": rng.random() < 0.5,
+               "dotted": dotted,
                "qraise": gen_pred(rng, 1) if rng.random() < 0.2 else None,
                "qreraise": rng.choice([None, None, False, True]),
-               "probes": gen_probes(rng, nodes, root, rng.randint(0, 4))}
+               "probes": gen_probes(rng, nodes, root, rng.randint(0, 4), dotted)}
 
 
 # --------------------------------------------------------------------------
